@@ -406,6 +406,113 @@ async fn degenerate(ctx: &mut Ctx, ty: &str, name: &str, wire: Frames, must_reje
     }
 }
 
+/// A real ROUTER hop in front of REP: raw REQ clients (no Identity property, an empty
+/// one as libzmq sends it, or an announced one) talk to a library ROUTER; the harness
+/// forwards frames verbatim as the DEALER side of a proxy would; a library REP serves.
+async fn chain_case(ctx: &mut Ctx, ident: &str, nclients: usize, request: &[usize], reply: &[usize], case: &Value) {
+    let mut router = Sock::new("ROUTER", None);
+    let mut rep = Sock::new("REP", None);
+    let back = match Peer::attach(&rep, "DEALER", None).await {
+        Ok(p) => p,
+        Err(e) => {
+            ctx.inconclusive(format!("C07 attach: {e}"));
+            return;
+        }
+    };
+    let mut clients = Vec::new();
+    for k in 0..nclients {
+        let id: Option<Vec<u8>> = match ident {
+            "none" => None,
+            "empty" => Some(vec![]),
+            "1" => Some(vec![0x41 + k as u8]),
+            _ => Some((0..255).map(|i| if i == 0 { 0x80 + k as u8 } else { (i % 251) as u8 }).collect()),
+        };
+        match Peer::attach(&router, "REQ", id.as_deref()).await {
+            Ok(p) => clients.push(p),
+            Err(e) => {
+                ctx.inconclusive(format!("C07 attach: {e}"));
+                return;
+            }
+        }
+    }
+    let mut back_seen = 0usize;
+    for round in 0..2u64 {
+        for k in 0..nclients {
+            let req = mk(0xC0 + (k as u64) * 2 + round, request);
+            let rpl = mk(0xD0 + (k as u64) * 2 + round, reply);
+            let mut wire: Frames = vec![vec![]];
+            wire.extend(req.clone());
+            clients[k].send(&wire);
+            let m = match recv_now(&mut router).await {
+                Some(Ok(m)) => m,
+                other => {
+                    ctx.violation_with(
+                        "C07/chain/request-lost-at-router",
+                        format!("client {k} (identity option {ident}) sent a request; ROUTER.recv gave {other:?}"),
+                        case.clone(),
+                    );
+                    return;
+                }
+            };
+            back.send(&m); // the proxy's DEALER side passes frames through unchanged
+            match recv_now(&mut rep).await {
+                Some(Ok(got)) if got == req => {}
+                other => {
+                    ctx.violation_with(
+                        "C07/chain/rep-recv-not-the-request-payload",
+                        format!(
+                            "client {k} with identity option '{ident}' sent {} through a ROUTER hop (forwarded as {}); REP.recv returned {:?}",
+                            rc::frames_summary(&req),
+                            rc::frames_summary(&m),
+                            other.map(|r| r.map(|f| rc::frames_summary(&f)))
+                        ),
+                        case.clone(),
+                    );
+                    return;
+                }
+            }
+            if !matches!(sim::complete(rep.send(&rpl)).await, Ok(Ok(()))) {
+                ctx.violation_with("C07/rep-send-failed", "REP.send after a chained request failed".into(), case.clone());
+                return;
+            }
+            let outs = match back.out_msgs() {
+                Ok(o) => o,
+                Err(e) => {
+                    ctx.violation_with("C07/rep-reply-envelope", format!("reply stream: {e}"), case.clone());
+                    return;
+                }
+            };
+            if outs.len() != back_seen + 1 {
+                ctx.violation_with("C07/rep-reply-envelope", format!("{} replies on the wire, expected {}", outs.len(), back_seen + 1), case.clone());
+                return;
+            }
+            back_seen += 1;
+            let before: Vec<usize> = clients.iter().map(|c| c.conn.tap_len()).collect();
+            let fwd = outs.last().cloned().unwrap_or_default();
+            let sent = sim::complete(router.send(&fwd)).await;
+            let mut want: Frames = vec![vec![]];
+            want.extend(rpl.clone());
+            let got = clients[k].conn.tap_from(before[k]);
+            let stray = clients.iter().enumerate().any(|(i, c)| i != k && c.conn.tap_len() != before[i]);
+            if !matches!(sent, Ok(Ok(()))) || got != rc::message(&want) || stray {
+                ctx.violation_with(
+                    "C07/chain/reply-did-not-retrace-the-route",
+                    format!(
+                        "reply {} for client {k} (identity option '{ident}'): ROUTER.send gave {sent:?}, the client received {} bytes (expected {}), another client was written to: {stray}",
+                        rc::frames_summary(&fwd),
+                        got.len(),
+                        rc::message(&want).len()
+                    ),
+                    case.clone(),
+                );
+                return;
+            }
+            ctx.count("chain_round_trips");
+            ctx.count(&format!("chain_identity/{ident}"));
+        }
+    }
+}
+
 impl Prop for C07 {
     fn id(&self) -> &'static str {
         "C07"
@@ -429,6 +536,15 @@ impl Prop for C07 {
             v.push(json!({"kind": "req_batch", "shapes": chunk}));
         }
         v.push(json!({"kind": "degenerate"}));
+        for ident in ["none", "empty", "1", "255"] {
+            for n in 1..=3usize {
+                for (i, chunk) in shapes.chunks(40).enumerate() {
+                    if i % 3 == n % 3 {
+                        v.push(json!({"kind": "chain_batch", "ident": ident, "clients": n, "shapes": chunk}));
+                    }
+                }
+            }
+        }
         for n in 1..=4usize {
             v.push(json!({"kind": "req_death", "peers": n}));
         }
@@ -488,6 +604,20 @@ impl Prop for C07 {
                 ctx.eval(1, true);
                 sim::run(req_case(ctx, &usizes(case, "request"), &usizes(case, "reply"), case));
             }
+            "chain_batch" => {
+                let all = payload_shapes();
+                for (k, req) in shapes_of(case).iter().enumerate() {
+                    let rep = &all[(shape_hash(req) as usize + 5 * k + 1) % all.len()];
+                    let one = json!({"kind": "chain", "ident": s(case, "ident"), "clients": u(case, "clients"), "request": req, "reply": rep});
+                    ctx.eval(hash_str(&one.to_string()), true);
+                    ctx.sample("chain", || one.clone());
+                    sim::run(chain_case(ctx, s(case, "ident"), u(case, "clients") as usize, req, rep, &one));
+                }
+            }
+            "chain" => {
+                ctx.eval(1, true);
+                sim::run(chain_case(ctx, s(case, "ident"), u(case, "clients") as usize, &usizes(case, "request"), &usizes(case, "reply"), case));
+            }
             "req_death" => {
                 ctx.eval(hash_str(&case.to_string()), true);
                 ctx.sample("req_death", || case.clone());
@@ -542,6 +672,9 @@ impl Prop for C07 {
             ("payload_with_interior_empty_frame", 100),
             ("multi_hop_prefix", 100),
             ("rep_two_request_sequences", 48),
+            ("chain_round_trips", 1000),
+            ("chain_identity/empty", 200),
+            ("chain_identity/none", 200),
             ("req_peer_died_with_request_outstanding", 4),
             ("rep_request_abandoned", 16),
             ("rep_requester_gone_before_reply", 16),
